@@ -162,7 +162,57 @@ def add_quat_slerp(u):
         ens.append('({ %s ((%s) ==> res.%s.v@ == %s) && ((!(%s)) ==> res.%s.v@ == %s) })'
                    % (lets, near, x, X.verus(nl[k]), near, x, X.verus(tr[k])))
     u.take(P, hdr, 'slerp_unclamped', C(ensures=ens))
+    # the same by-cases definition as a spec function (used by the Slerp trait impls and Transform's Lerp)
+    lit = 'Quaternion { %s }' % ', '.join('%s: rr(if %s { %s } else { %s })' % (x, near, X.verus(nl[k]), X.verus(tr[k])) for k, x in enumerate('xyzw'))
+    u.add(P, 'pub open spec fn quat_slerp_spec(from: Quaternion<R>, to: Quaternion<R>, factor: R) -> Quaternion<R> { %s %s }' % (lets, lit))
+    for hdr2, amp in (('impl<T, Factor> Slerp<Factor> for Quaternion<T> where T: Lerp<T, Output = T> + Add<T, Output = T> + Real, Factor: Into<T>', ''),
+                      ("impl<'a, T, Factor> Slerp<Factor> for &'a Quaternion<T> where T: Lerp<T, Output = T> + Add<T, Output = T> + Real, Factor: Into<T>", '*')):
+        # Factor := R as well (D3): Verus resolves `Self::slerp_unclamped` in its own encoding of a trait-method contract to the inherent
+        # function of the same name, so the factor types must coincide; `factor.into()` is then the reflexive Into (axiom)
+        u.impl_extra[(P, norm(hdr2))] = ('open spec fn slerp_req(from: Self, to: Self, factor: R) -> bool { true }\n'
+                                         'open spec fn slerp_spec(from: Self, to: Self, factor: R) -> Quaternion<R> '
+                                         '{ quat_slerp_spec(%sfrom, %sto, factor) }' % (amp, amp))
+        u.take_impl(P, hdr2, {'slerp_unclamped': C(ensures=['res == quat_slerp_spec(%sfrom, %sto, factor)' % (amp, amp)])}, tparams=('T', 'Factor'))
     return lets
+
+
+def add_transform_lerp(u):
+    """Lerp on Transform: positions and scales by the vector Lerp, orientations by the quaternion Slerp (by value and by reference)"""
+    P = 'transform::repr_c'
+    for hdr, amp, ty in (
+            ('impl<P, O, S, Factor> Lerp<Factor> for Transform<P, O, S> where Factor: Copy + Into<O>, P: Lerp<Factor, Output = P>, '
+             'S: Lerp<Factor, Output = S>, O: Lerp<O, Output = O> + Real + Add<Output = O>', '', lambda t: 'Vec3<R>'),
+            ("impl<'a, P, O, S, Factor> Lerp<Factor> for &'a Transform<P, O, S> where Factor: Copy + Into<O>, &'a P: Lerp<Factor, Output = P>, "
+             "&'a S: Lerp<Factor, Output = S>, O: Lerp<O, Output = O> + Real + Add<Output = O>", '&', lambda t: "&'a Vec3<R>")):
+        q = 'Quaternion<R>' if not amp else "&'a Quaternion<R>"
+        # the spec is written out per element (no trait-dispatched spec calls inside it: with them Verus 0.2026.09.13 orders the
+        # prelude's operator impls before their own spec axioms and fails them)
+        vlit = lambda w: 'Vec3 { %s }' % ', '.join('%s: rr(a.%s.%s.v@ + t.v@ * (b.%s.%s.v@ - a.%s.%s.v@))' % (x, w, x, w, x, w, x) for x in 'xyz')
+        deref = '*' if amp else ''
+        olit = 'quat_slerp_spec(a.orientation, b.orientation, t)'
+        u.impl_extra[(P, norm(hdr))] = (
+            'open spec fn lerp_req(a: Self, b: Self, t: R) -> bool { true }\n'
+            'open spec fn lerp_spec(a: Self, b: Self, t: R) -> Transform<R, R, R> { Transform { position: %s, orientation: %s, scale: %s } }'
+            % (vlit('position'), olit, vlit('scale')))
+        ens = ['res.%s.%s.v@ == a.%s.%s.v@ + t.v@ * (b.%s.%s.v@ - a.%s.%s.v@)' % ((w, x) * 4) for w in ('position', 'scale') for x in 'xyz']
+        ens += ['res.orientation == ' + olit]
+        pro = 'proof { %s }' % ' '.join('crate::lemma_lerp_precise(a.%s.%s.v@, b.%s.%s.v@, t.v@);' % (w, x, w, x)
+                                        for w in ('position', 'scale') for x in 'xyz')
+        u.take_impl(P, hdr, {'lerp_unclamped': C(ensures=ens), 'lerp_unclamped_precise': C(ensures=ens, prologue=pro)},
+                    tparams=('P', 'O', 'S', 'Factor'))
+    # at P = O = S = Factor = R: affine in position and scale, quaternion slerp in orientation
+    body = ('    let r: Transform<R, R, R> = Lerp::lerp_unclamped(a, b, f);\n    let rp: Transform<R, R, R> = Lerp::lerp_unclamped_precise(a, b, f);\n'
+            '    let rr_: Transform<R, R, R> = Lerp::lerp_unclamped(&a, &b, f);\n'
+            '    let o = Quaternion::slerp_unclamped(a.orientation, b.orientation, f);\n'
+            '    proof { %s }\n' % ' '.join('crate::lemma_lerp_precise(a.%s.%s.v@, b.%s.%s.v@, f.v@);' % (w, x, w, x)
+                                          for w in ('position', 'scale') for x in 'xyz'))
+    asserts = []
+    for w in ('position', 'scale'):
+        for x in 'xyz':
+            asserts.append('r.%s.%s.v@ == a.%s.%s.v@ + f.v@ * (b.%s.%s.v@ - a.%s.%s.v@)' % ((w, x) * 4))
+            asserts.append('rp.%s.%s.v@ == r.%s.%s.v@ && rr_.%s.%s.v@ == r.%s.%s.v@' % ((w, x) * 4))
+    asserts += ['r.orientation.%s.v@ == o.%s.v@ && rp.orientation.%s.v@ == o.%s.v@ && rr_.orientation.%s.v@ == o.%s.v@' % ((x,) * 6) for x in 'xyzw']
+    u.add(P, thm_fn('thm_transform_lerp', ['a: Transform<R, R, R>', 'b: Transform<R, R, R>', 'f: R'], [], body, asserts, 'C12'))
 
 
 def slerp_lemma():
@@ -292,11 +342,12 @@ def plan(exp, tier):
             add_quat_lerp_impl(u)
             add_quat_slerp(u)
             add_transition(u)
+            add_transform_lerp(u)
             add_theorems(u, lem)
             add_slerp_theorem(u, lem['slerp'])
             for lm in flat(lem):
                 u.add_root(lm.verus_text('C12'))
-            tops = ['ops', 'vec', 'quaternion', 'transition']
+            tops = ['ops', 'vec', 'quaternion', 'transition', 'transform']
         p.add_unit(nm, u, tops)
     p.lemmas += flat(lem) + [ll]
     if os.path.exists(os.path.join(kani_driver.KROOT, 'c12', 'harnesses.json')):
@@ -305,7 +356,6 @@ def plan(exp, tier):
             p.kani = specs
     p.not_decided += ['ProgressMapperFn (fn-pointer progress mapper): function pointer types are outside Verus\'s subset',
                       'quaternion slerp: the theorem (unit length, angle t*theta with the start, both end points) is proved for from.to >= 0 in the trigonometric branch; for from.to < 0 (sign flip) and in the near-parallel nlerp branch only the by-cases contract is proved',
-                      'Transform Lerp (position/scale lerp + orientation slerp): not yet under contract',
                       'integer Lerp impls: decided by Kani harnesses in /verif/kani/c12 when present',
                       'to-rounding-error clauses for f32/f64 (exact real arithmetic is used)']
     return p
